@@ -357,9 +357,8 @@ class DFXPWriter(BaseWriter):
                         node.layout_info)
 
         # Create the styles in the <styling> section, or a default style.
-        for style_id, style in caption_set.get_styles():
-            if style != {}:
-                dfxp = self._recreate_styling_tag(style_id, style, dfxp)
+        for style_id, style in _styles_in_reference_order(caption_set):
+            dfxp = self._recreate_styling_tag(style_id, style, dfxp)
         if not caption_set.get_styles():
             dfxp = self._recreate_styling_tag(
                 DFXP_DEFAULT_STYLE_ID, DFXP_DEFAULT_STYLE, dfxp)
@@ -1178,6 +1177,26 @@ def _escape_attr(value):
     if isinstance(value, str):
         return escape(value, {'"': '&quot;'})
     return value
+
+
+def _styles_in_reference_order(caption_set):
+    """The non-empty document styles, each one after the styles it refers to:
+    a reference to another style is only written when that style is already
+    in the document.
+    """
+    styles = [(style_id, style)
+              for style_id, style in caption_set.get_styles() if style != {}]
+    ordered = []
+    while styles:
+        pending = {style_id for style_id, _ in styles}
+        ready = [
+            (style_id, style) for style_id, style in styles
+            if not pending & (set(style.get('classes')
+                                  or [style.get('class')]) - {style_id})
+        ] or styles
+        ordered.extend(ready)
+        styles = [item for item in styles if item not in ready]
+    return ordered
 
 
 def _recreate_style(content, dfxp):
